@@ -99,3 +99,23 @@ pub fn hash32(data: &[u8]) -> u32 {
     }
     h
 }
+
+// ---------------------------------------------------------------------------
+// Synchronous call-outs ("probes"). Unlike `sched`, a probe tells the harness
+// which component instance reached which named point, so the harness can act
+// (e.g. call `close()` on that very connection) exactly between two steps of
+// the code under test. No-op unless a probe callback is installed.
+static PROBE: RwLock<Option<Arc<dyn Fn(&str, &str, &str) + Send + Sync>>> = RwLock::new(None);
+
+pub fn set_probe(f: Option<Arc<dyn Fn(&str, &str, &str) + Send + Sync>>) {
+    *PROBE.write() = f;
+}
+
+/// `comp` = component ("pc"), `inst` = instance label, `point` = named program point.
+#[inline]
+pub fn probe(comp: &str, inst: &str, point: &str) {
+    let f = PROBE.read().clone();
+    if let Some(f) = f {
+        f(comp, inst, point);
+    }
+}
